@@ -23,13 +23,11 @@ THEOREMS = [
     "date_roundtrip", "date_display_out_of_range_regression", "date_out_of_range_unparseable", "civil_roundtrip",
     "int_roundtrip", "bool_roundtrip", "string_roundtrip",
     "blob_roundtrip", "blob_backslash_quote_regression",
-    "interval_roundtrip_partial", "timestamp_roundtrip", "timestamp_subsecond_regression", "timestamp_first_year_unsound", "interval_roundtrip_unsound", "f64_nan_roundtrip",
+    "interval_roundtrip", "interval_old_display_unsound", "interval_subsecond_regression", "timestamp_roundtrip", "timestamp_subsecond_regression", "timestamp_first_year_unsound", "f64_nan_roundtrip",
 ]
 
 # reason tag computed by the model  ->  known-finding signature
 WHY_SIG = {
-    "iv-subsecond": ("roundtrip:interval:subsecond",
-                     "Interval Display drops the sub-second part of `ms`"),
     "date-range": ("roundtrip:date:out-of-range",
                    "Date admits every i32 day count but its text form is chrono's (years -262143..=262142): outside it Display prints `<date out of range: N days>`, which does not parse back"),
     "ts-first-year": ("roundtrip:timestamp:first-chrono-year",
